@@ -133,3 +133,45 @@ def run(ctx, rep):
             rep.violation("C20.4", cons, "returns True before all fields have been compared", f"{eq.path}:{early_true[0].lineno}")
         else:
             rep.ok("C20.4", cons, "fields compared by value; no early True", eq.loc())
+
+    # ------------------------------------------------------------ C20.6
+    rep.rule("C20.6", "numbers are compared by value: inside __eq__ no result depends on the numeric *type* of one operand (isinstance(x, float/int/..)) except in the NaN special case", floor=1)
+    NUMT = {"float", "int", "complex", "Integral", "Real", "Number"}
+    n6 = 0
+    for k in eq_classes:
+        eq = ix.classes[k].methods["__eq__"]
+        ci = ix.classes[k]
+        funcs6 = [eq.node] + [n for n in ast.walk(eq.node) if isinstance(n, (ast.FunctionDef, ast.Lambda)) and n is not eq.node]
+        for fn in funcs6:
+            if isinstance(fn, ast.Lambda):
+                continue
+            # parent map with controlling tests
+            def walk_ctrl(stmts, ctrl, out):
+                for st in stmts:
+                    if isinstance(st, ast.If):
+                        walk_ctrl(st.body, ctrl + [st.test], out)
+                        walk_ctrl(st.orelse, ctrl + [st.test], out)
+                    elif isinstance(st, (ast.For, ast.While, ast.With, ast.Try)):
+                        for fld in ("body", "orelse", "finalbody"):
+                            walk_ctrl(getattr(st, fld, []) or [], ctrl, out)
+                        for h in getattr(st, "handlers", []) or []:
+                            walk_ctrl(h.body, ctrl, out)
+                    elif isinstance(st, ast.Return) and st.value is not None:
+                        out.append((st, ctrl))
+            rets = []
+            walk_ctrl(fn.body, [], rets)
+            for st, ctrl in rets:
+                typed = [m for m in ast.walk(st.value) if isinstance(m, ast.Call) and isinstance(m.func, ast.Name) and m.func.id == "isinstance" and len(m.args) == 2
+                         and {ast.unparse(x).split(".")[-1] for x in (m.args[1].elts if isinstance(m.args[1], ast.Tuple) else [m.args[1]])} & NUMT]
+                if not typed:
+                    continue
+                n6 += 1
+                nan_case = any(isinstance(m, ast.Call) and ((isinstance(m.func, ast.Attribute) and m.func.attr == "isnan") or (isinstance(m.func, ast.Name) and m.func.id == "isnan")) for t in ctrl for m in ast.walk(t))
+                cons = cls_construct(ix, k, f"__eq__:{getattr(fn, 'name', '')}:numeric-type-test")
+                loc = f"{eq.path}:{st.lineno}"
+                if nan_case:
+                    rep.ok("C20.6", cons, "type test only inside the NaN special case", loc)
+                else:
+                    rep.violation("C20.6", cons, f"`{ast.unparse(st)}` makes the result depend on the numeric type of one operand outside the NaN case: `Rz q 1.0` and `Rz q 1` compare unequal in one direction and equal in the other (equality is neither by value nor symmetric)", loc)
+    if n6 == 0:
+        rep.ok("C20.6", "ir:__eq__:numeric-type-tests", "no __eq__ result depends on a numeric type test")
